@@ -750,6 +750,16 @@ def copyto(dst, src, *args, **kwargs):
     # note that np.copyto is heavily used internally
     # in numpy, and it may be used with fundamental datatypes,
     # so we don't attempt to pass ndarray views to keep generality
+    where = kwargs.get("where", args[1] if len(args) > 1 else True)
+    if (
+        where is not True
+        and getattr(dst, "units", None) is not None
+        and getattr(src, "units", None) is not None
+    ):
+        # only part of dst is overwritten, so it keeps its units and
+        # src has to be expressed in them
+        np.copyto._implementation(dst, src.in_units(dst.units), *args, **kwargs)
+        return
     np.copyto._implementation(dst, src, *args, **kwargs)
     if getattr(dst, "units", None) is not None:
         dst.units = getattr(src, "units", dst.units)
